@@ -87,10 +87,9 @@ __CPROVER_loop_invariant(1 <= index && (index <= fCharsAvail || fCharsAvail == 0
 __CPROVER_decreases(kCharBufSize + 1 - index)
 @*/
 
-struct XMLReader nondet_reader(void);
 void h_refreshCharBuffer(void)
 {
-  SELF = nondet_reader();
+  VERIF_INPUT(SELF);
   verif_thrown = 0;
   XMLReader_refreshCharBuffer();
   VERIF_CANARY("after call");
